@@ -295,7 +295,12 @@ impl<const K: usize> AffTree<K> {
         }
 
         for (label, node) in to_remove {
-            let _ = self.tree.try_remove_child(node, label);
+            // Never remove the last child of a decision: a decision without children is flagged
+            // as a terminal and its predicate would be evaluated as a function. The infeasible
+            // child is kept instead (it is unreachable, so the semantics are unchanged).
+            if self.tree.contains(node) && self.tree.num_children(node) > 1 {
+                let _ = self.tree.try_remove_child(node, label);
+            }
         }
 
         counter
